@@ -652,6 +652,18 @@ pub fn settle_violation(
     key_of: &dyn Fn(&str, &Value) -> String,
 ) -> Violation {
     let (okey, detail, replay) = case.violation.clone().unwrap();
+    if okey.starts_with("native") {
+        // found under an OS-decided thread schedule: the replay re-runs the same seeded
+        // workload (several attempts) but by its nature may not fail again
+        return Violation {
+            property: prop.to_string(),
+            oracle: okey.clone(),
+            key: key_of(&okey, &replay),
+            detail,
+            seed: case.seed,
+            replay,
+        };
+    }
     let alone = eval_in_child(prop, &replay, dev);
     if alone.as_ref().map(|(k, _)| *k == okey).unwrap_or(false) {
         let ok2 = okey.clone();
